@@ -25,6 +25,17 @@ static inline rc::Gen<int> gkeylen(int bs, int maxblocks, int inbetween_percent)
     return rc::gen::weightedOneOf<int>({{100 - inbetween_percent, primary}, {inbetween_percent, irange(bs, bs * maxblocks)}});
 }
 
+// huge unsigned argument values: classic boundaries, and values whose LOW part is a perfectly legal value `low`
+// while some high bit(s) are set - what a truncating or overflowing range check (8/16-bit narrowing, size*8, shift
+// by the count) would let through
+static inline rc::Gen<int> ghuge(int low) {
+    auto classic = rc::gen::element(0x7fffffff, (int)0x80000000, -1, 0x10000 + low, 0x100 + low, (int)0x80000000 + low);
+    auto highbit = rc::gen::map(irange(8, 31), [low](int b) { return (int)((1u << b) + (unsigned)low); });
+    auto multi = rc::gen::map(rc::gen::arbitrary<uint32_t>(), [low](uint32_t r) { return (int)((r & 0xffffff00u) | 0x100u) + low; });
+    auto neg = rc::gen::map(irange(1, 64), [](int k) { return -k; });
+    return rc::gen::weightedOneOf<int>({{3, classic}, {4, highbit}, {2, multi}, {1, neg}});
+}
+
 // chunk sizes for CTR streams
 static inline rc::Gen<int> gchunk(int bs) {
     return rc::gen::weightedOneOf<int>({
@@ -222,7 +233,7 @@ struct HistGen {
             if (inv) e.set("inv", 1);
             p.push_back(e);
         } else {
-            int nblk = *rc::gen::weightedOneOf<int>({{1, rc::gen::just(0)}, {4, irange(1, 9)}, {3, irange(0, 20)}, {1, irange(16, 40)}});
+            int nblk = *rc::gen::weightedOneOf<int>({{1, rc::gen::just(0)}, {4, irange(1, 9)}, {3, irange(0, 20)}, {1, irange(16, 40)}, {1, irange(41, 200)}});
             size_t n = (size_t)nblk * bs;
             const char *fn = s.kind == PM ? "crypt" : (*chance(50) ? "enc" : "dec");
             Op e = base(i, fn, inv);
@@ -241,7 +252,8 @@ struct HistGen {
         bool ctr = kind_is_ctr(s.kind);
         bool mant = s.kind == CM || s.kind == PM;
         int w = *irange(0, ctr ? 7 : 3);
-        int huge = *rc::gen::element(0x7fffffff, (int)0x80000000, -1, 0x10000 + bs);
+        // huge values: boundaries, and a legal-looking low part (a key / tweak / counter length or a round count) under high bits
+        int huge = *ghuge(*rc::gen::element(bs, 2 * bs, 16, 6, 8, bs - 1));
         if (w == 0) {           // bad key length
             Op k = base(i, (ctr && !mant && *chance(40)) ? "set_tweaked_key" : "set_key", true);
             bool tk = k.name.find("tweaked") != std::string::npos;
